@@ -27,16 +27,24 @@ class HarnessBudget(BaseException):
 
 
 class Lock:
-    """serialise lake invocations (several checks may run at once)"""
+    """serialise lake invocations (several checks may run at once); re-entrant within a process, so that a check can hold it from
+    the regeneration of its generated files to the end of its build (another check's fallback to pinned copies cannot interleave)"""
+    _depth = 0
+    _f = None
 
     def __enter__(self):
-        self.f = open(os.path.join(LEAN, '.lake.lock.verif'), 'w')
-        fcntl.flock(self.f, fcntl.LOCK_EX)
+        if Lock._depth == 0:
+            Lock._f = open(os.path.join(LEAN, '.lake.lock.verif'), 'w')
+            fcntl.flock(Lock._f, fcntl.LOCK_EX)
+        Lock._depth += 1
         return self
 
     def __exit__(self, *a):
-        fcntl.flock(self.f, fcntl.LOCK_UN)
-        self.f.close()
+        Lock._depth -= 1
+        if Lock._depth == 0:
+            fcntl.flock(Lock._f, fcntl.LOCK_UN)
+            Lock._f.close()
+            Lock._f = None
 
 
 def sh(cmd, cwd=None, timeout=3600, env=None):
@@ -217,12 +225,13 @@ def run_check(prop, tier, seed, replay=None):
     # ---- 1. proof obligations ------------------------------------------------------------------
     pre = getattr(mod, 'prepare', None)
     prep_err = None
-    if pre:
-        try:
-            pre(ctx)
-        except Exception as x:
-            prep_err = f'translator/preparation failed: {x!r}'
-    au = audit(prop, getattr(mod, 'EXTRA_MODULES', ()))
+    with Lock():          # regeneration and build are one step with respect to other checks running in this tree
+        if pre:
+            try:
+                pre(ctx)
+            except Exception as x:
+                prep_err = f'translator/preparation failed: {x!r}'
+        au = audit(prop, getattr(mod, 'EXTRA_MODULES', ()))
     obligations = len(au['theorems'])
     discharged = 0
     proof_problems = []
@@ -248,6 +257,34 @@ def run_check(prop, tier, seed, replay=None):
         checker_cmd += f' && lake env leanchecker OnlVerif.Props.{prop}'
         if not ok:
             proof_problems.append('leanchecker rejected the compiled module: ' + out[-500:])
+
+    # A generated file this property only *uses* (py2lean/scope.py: C16 runs the window rules that C17 owns) was put back to its
+    # pinned translation so that the proofs build.  The replay, however, should run the model with the rules as they are in the
+    # source - that they agree with the pinned ones is the owner's bridge, and a disagreement about them is the owner's to report:
+    # regenerate the used file and rebuild the driver alone (the proofs above were built and audited before this point).
+    used_back = []
+    try:
+        from py2lean import scope as _scope
+        used_back = [s_ for s_ in (au.get('foreign_generated_restored_to_pinned') or []) if prop in _scope.USERS.get(s_, ())]
+    except ImportError:
+        pass
+    if au['build_ok'] and used_back:
+        with Lock():
+            from py2lean import translate as _tr
+            note = {'stems': used_back}
+            try:
+                _tr.regenerate_all(only=tuple(used_back), tolerate=True)
+                okd, _ = lake_build(['driver'])
+                note['driver_runs_the_rules_of_the_source'] = okd
+                if not okd:
+                    _scope.restore_pinned(used_back)
+                    okd, _ = lake_build(['driver'])
+                    note['driver_rebuilt_with_pinned'] = okd
+            except Exception as x:
+                note['error'] = repr(x)
+                _scope.restore_pinned(used_back)
+                lake_build(['driver'])
+            au['used_generated_after_proofs'] = note
 
     # ---- 2. correspondence + oracle ------------------------------------------------------------
     result = {}
@@ -331,7 +368,7 @@ def run_check(prop, tier, seed, replay=None):
     cov['oracle_failures'] = len(oracle_failures)
     cov['known_findings_reported'] = sorted(reported_known)
     cov['proof_problems'] = proof_problems
-    for k in ('foreign_generated_restored_to_pinned', 'first_build_errors', 'own_driver_dependency_restored_to_pinned'):
+    for k in ('foreign_generated_restored_to_pinned', 'first_build_errors', 'own_driver_dependency_restored_to_pinned', 'used_generated_after_proofs'):
         if au.get(k):
             cov[k] = au[k]
     cov['notes'] = notes
